@@ -821,6 +821,8 @@ def run_check(prop, cfg, tier, seed):
                                            "Landlock sandbox (disabled at build time)", "CPU/RAM detection (explicit -T and --memlimit)", "terminal (never a tty)"],
                        "known_findings_hit": [{"id": k, "count": n} for k, (f, n) in sorted(known.items())], "violations_reported": reported},
           "assumptions": cfg.get("assumptions", []), "wall_s": round(wall, 1), "violations": len(reported)}
+    if rc == 2 and reported:
+        rc = 1   # a violation that passed the reproduction gate stands (see bin/vlib.py)
     os.makedirs(os.path.join(V, "evidence"), exist_ok=True)
     json.dump(ev, open(os.path.join(V, "evidence", prop + ".json"), "w"), indent=1)
     log("%s %s: %d cases, %d distinct (scene, call, role, fault) tuples, %s (%.0fs)" % (prop, tier, len(cases), len(feats), {0: "held on everything explored", 1: "VIOLATION", 2: "MACHINERY FAILURE"}[rc], wall))
